@@ -41,6 +41,18 @@
    MEnterRacy  MEnter with "exception_handler_usecount++" moved out of the critical section (a non-atomic load /
                store pair): the self-test change of DESIGN.md section 11.  Same remark.
 
+   What a scan may write.  The only memory a step of thread t may write is its own local state (l_ctx t: the scanner and
+   everything reachable only from it).  EVERYTHING ELSE that more than one scanner can reach is shared state and belongs
+   to the read-only component g_rules of this model: the rules' arena, but also any variable with static storage
+   duration inside libyara or a module (a `static char msg[32]` that console.log formats into, a cache, a counter).
+   A scan step that writes such a location is not an MScan (a function rules x own scanner -> own scanner) but an
+   MRulesWrite, which the premises of the theorems (all_clean / bal) exclude; the witness
+   module_static_buffer_refutes_noninterference (Props) shows what happens otherwise.  On the implementation the arena
+   part of this premise is watched by the mprotect frame monitor; statics live in .data/.bss, where mprotect cannot
+   tell a scan's write from the handler protocol's own variables: they are watched by the before/after comparison of
+   every writable global of libyara.a and by ThreadSanitizer, and their effect by comparing the content of every
+   pointer-carrying callback message with the solo run (checks/c09.py).
+
    A schedule is a list of thread ids; [gstep t] lets thread t do its next atomic step (nothing happens when t does
    not exist, has finished, or waits for the mutex).  No proofs in this file. *)
 From Coq Require Import List ZArith NArith Bool Arith.
@@ -270,6 +282,10 @@ Definition i_define (_ : unit) (v : Z) (c : ictx) : ictx := mkICtx v (ic_err c) 
 Definition i_ok (_ : irules) (c : option ictx) : bool := match c with Some c => negb (ic_err c) | None => false end.
 (* yr_rule_disable on rule 0 *)
 Definition i_disable0 (r : irules) : irules := match r with (th, _) :: t => (th, true) :: t | [] => [] end.
+
+(* a module-level static buffer, seen as one more shared location: slot 0 of the shared state holds the text that
+   console.log(<int>) has formatted; "formatting" v is a write to it, handing it to the callback is a read *)
+Definition i_format (v : Z) (r : irules) : irules := match r with (_, d) :: t => (v, d) :: t | [] => [] end.
 
 Definition imop := mop irules ictx Z unit Z.
 Definition ilocal := local irules ictx Z unit Z.
